@@ -14,10 +14,12 @@ back pointers, node inputs and device annotations (`C13_closed*`, `C13_closed_sh
 and the exact error (`C13_clone_succeeds`, `C13_clone_error_exact`, `C13_clone_raises_iff`, hypothesis
 = verdict of the decidable scope walker), and that the value map is a bijection
 (`C13_value_map_bijection`).
-Not proved (differential / oracle only): editing calls outside `Edit2`, `Graph.sort` on graphs
-whose nodes hold subgraphs, `deep_copy=True` copying the objects stored in `meta`, in-place state
-of shared `Attr` objects (D114) and shared tensors (D113), walker theorems for `Function.clone` /
-`Model.clone`, non-local sharding specs (D340).
+Round 3b: `C13_wiring_image` (the clone's wiring is the image of the source's under the value map,
+Lemmas/CloneWire.lean) with `C13_faithful_of_wiring` / `C13_faithful_observe_wiring` derived from it,
+`C13_model_clone_succeeds` / `C13_model_clone_raises_iff` (walker locality, Lemmas/CloneLocal.lean,
+CloneModelTotal.lean), `C13_spec_unbound_D342`.
+Not proved (differential / oracle only): `deep_copy=True` copying the objects stored in `meta`,
+in-place state of shared `Attr` objects (D114) and shared tensors (D113).
 -/
 import IrVerif.Lemmas.Clone
 import IrVerif.Lemmas.CloneFrame
@@ -27,6 +29,8 @@ import IrVerif.Lemmas.CloneSer
 import IrVerif.Lemmas.CloneScope
 import IrVerif.Lemmas.CloneResidue
 import IrVerif.Lemmas.CloneTotal
+import IrVerif.Lemmas.CloneWire
+import IrVerif.Lemmas.CloneModelTotal
 namespace IrVerif.Clone
 
 /-! ### what "the objects of a clone" are -/
@@ -1511,5 +1515,233 @@ example : isOk (run (graphClone 4 false 0) exNonLocal).1 = true ∧
 example : verdictKind (cloneVerdict 4 false exNonLocal 18) =
     "raised: sharding spec targets an outer-scope value" := by decide +kernel
 example : verdictKind (cloneVerdict 4 true exNonLocal 18) = "ok" := by decide +kernel
+
+
+/-! ### C13_wiring_image: the clone's wiring is the image of the source's wiring (round 3b)
+
+`GraphWire allow w' vm g g'` (Lemmas/CloneWire.lean) relates the source graph `g` and its clone `g'`
+in the heap after cloning through the cloner's final value map `vm`: graph inputs, initializers and
+outputs of `g'` are the `vm`-bindings of those of `g` (exact lookups); the nodes correspond
+position by position and for every pair the operator fields are equal, the clone's outputs are the
+`vm`-bindings of the source's outputs, every input and every sharding target of the clone is the
+`vm`-image of the source's (`RefImg`: `r' = r.map (img vm)`; with `allow_outer_scope_values=True`
+a reference may also have been passed through unchanged), a graph-free attribute is the same
+(shared) object and an attribute holding graphs is a new object around graphs that are again
+`GraphWire`-related, `metadata_props` / `meta` have equal content.  Together with "every pair of
+`vm` relates values with the same observation" (name, doc string, constant, type, shape, metadata)
+and `C13_value_map_bijection` this says: the clone is the source with every object renamed. -/
+
+/-- **C13_wiring_image**.  When the walker accepts the source graph, the clone returned by
+    `Graph.clone` / `GraphView.clone` is the image of the source under the cloner's final value map
+    `s'.vm` (`GraphWire`, at every nesting depth), and every pair of that map relates values with
+    the same observation (`ValSim`: name, doc string, constant tensor, content of type and shape
+    objects, of `metadata_props` and of `meta`). -/
+theorem C13_wiring_image {w : World} {fuel : Nat} {allow : Bool} {g : Nat} {A : Sc}
+    (h : cloneVerdict fuel allow w g = .ok A) :
+    ∃ g' s', cloneGraph allow fuel g { w := w } = (.ok g', s') ∧
+      run (graphClone fuel allow g) w = (.ok g', s'.w) ∧
+      GraphWire allow s'.w s'.vm g g' ∧ (∀ p ∈ s'.vm, ValSim s'.w p.1 p.2) := by
+  obtain ⟨g', s', h1, h2, h3, h4, _⟩ := graphClone_wiring h
+  exact ⟨g', s', h1, h2, h3, h4⟩
+
+/-- **C13_wiring_refs_exact**: with `allow_outer_scope_values=False` "image" is exact — a
+    reference of the clone IS the reference of the source mapped through the value map. -/
+theorem C13_wiring_refs_exact (vm : List (Nat × Nat)) (r r' : Option Nat) :
+    RefImg false vm r r' ↔ r' = r.map (img vm) := by
+  constructor
+  · rintro (h | ⟨h, _⟩)
+    · exact h
+    · cases h
+  · exact fun h => .inl h
+
+/-- **C13_faithful_of_wiring**.  The observational simulation of `C13_faithful`, and with it the
+    equality of what serialization observes, FOLLOWS from the wiring image: in any heap, if `g'` is
+    the image of `g` under a value map whose pairs relate equally observed values, then `g` and `g'`
+    are `GraphSim`-related and `g'` serializes to whatever `g` serializes to. -/
+theorem C13_faithful_of_wiring {allow : Bool} {w : World} {vm : List (Nat × Nat)} {g g' : Nat}
+    (hW : GraphWire allow w vm g g') (hK : ∀ p ∈ vm, ValSim w p.1 p.2) :
+    GraphSim w g g' ∧ ∀ (k : Nat) (y : SGraph), serGraph k w g = some y → serGraph k w g' = some y :=
+  ⟨hW.toSim hK, fun k _ hy => serGraph_sim k (hW.toSim hK) hy⟩
+
+/-- **C13_faithful_observe_wiring**: `C13_faithful_observe` obtained through the wiring image
+    (hypothesis: the walker accepts): the clone is returned, it observes to what the original
+    observed to before cloning, and so does the original afterwards. -/
+theorem C13_faithful_observe_wiring {w : World} {fuel : Nat} {allow : Bool} {g : Nat} {A : Sc}
+    (h : cloneVerdict fuel allow w g = .ok A) (k : Nat) (y : SGraph) (hy : serGraph k w g = some y) :
+    ∃ g' w', run (graphClone fuel allow g) w = (.ok g', w') ∧
+      serGraph k w' g' = some y ∧ serGraph k w' g = some y := by
+  obtain ⟨g', s', _, h2, hW, hK, hle⟩ := graphClone_wiring h
+  have hy' := serGraph_mono hle k hy
+  exact ⟨g', s'.w, h2, (C13_faithful_of_wiring hW hK).2 k y hy', hy'⟩
+
+/-! ### C13_model_clone_succeeds / C13_model_clone_raises_iff: `Model.clone` (round 3b)
+
+`modelVerdict fuel w m` (Model/Clone2.lean) is the walker's verdict on `model.clone()`: the verdict
+of `cloneVerdict` on the main graph, then of `funcVerdict` on every function in order, every one
+read off the SOURCE heap `w` although each function is cloned on the heap the previous clones
+left: those heaps extend `w` (`C13_clone_pure_model`), and the walker's verdict is the same on every
+extension of the heap unless it is `irregular` (Lemmas/CloneLocal.lean). -/
+
+/-- **C13_model_clone_succeeds**: if the walker accepts the model, `Model.clone` returns. -/
+theorem C13_model_clone_succeeds {w : World} {fuel m : Nat} (h : modelVerdict fuel w m = .ok ()) :
+    ∃ m' w', run (modelClone fuel m) w = (.ok m', w') := by
+  have := Total.modelClone_verdict fuel w m
+  rw [h] at this
+  exact this
+
+/-- **C13_model_clone_raises_iff**: whenever the walker makes a claim, `Model.clone` raises iff the
+    walker answers `err (raised ..)`, and then with that very error (the first failing step in the
+    order graph, functions). -/
+theorem C13_model_clone_raises_iff {w : World} {fuel m : Nat}
+    (hreg : ∀ why, modelVerdict fuel w m ≠ .irregular why) (why : String) :
+    (run (modelClone fuel m) w).1 = .error (.raised why) ↔ modelVerdict fuel w m = .err (.raised why) := by
+  have hv := Total.modelClone_verdict fuel w m
+  cases hc : modelVerdict fuel w m with
+  | ok A =>
+    rw [hc] at hv
+    obtain ⟨f', w', h2⟩ := hv
+    rw [h2]
+    constructor <;> intro h <;> cases h
+  | err e =>
+    rw [hc] at hv
+    simp only at hv
+    rw [hv]
+    constructor
+    · intro h; cases h; rfl
+    · intro h; cases h; rfl
+  | irregular why' => exact absurd hc (hreg why')
+
+/-- a model with one function: main graph `exWorld`-like (cells 0..12), function body (cells 13..),
+    the function (cell 25), the model (cell 28) -/
+def exModel : World := exWorld ++ [
+  .graph { name := some "fb", inputs := [16], outputs := [22], nodes := [19], props := 14, mstore := 15 },
+  .dict {}, .dict {},
+  .val { name := some "a", graph := some 13, isIn := true, uses := [(19, 0)], props := 17, mstore := 18 },
+  .dict {}, .dict {},
+  .node { name := some "fn", opType := "Neg", inputs := [some 16], outputs := [22], graph := some 13,
+          props := 20, mstore := 21 },
+  .dict {}, .dict {},
+  .val { name := some "b", producer := some 19, index := some 0, graph := some 13, isOut := true,
+         props := 23, mstore := 24 },
+  .dict {}, .dict {},
+  .func { domain := "d", name := "f", graph := 13 },
+  .dict {}, .dict {},
+  .model { graph := 0, funcs := [25], props := 26, mstore := 27 } ]
+
+def verdictKindU : WRes Unit → String
+  | .ok _ => "ok"
+  | .err (.raised why) => "raised: " ++ why
+  | .err (.unsupported why) => "unsupported: " ++ why
+  | .err .fuel => "fuel"
+  | .irregular why => "irregular: " ++ why
+
+/-- non-vacuity: the walker accepts the model and `Model.clone` returns; a model whose function body
+    consumes a value of the main graph is rejected with the cloner's message -/
+example : verdictKindU (modelVerdict 4 exModel 28) = "ok" := by decide +kernel
+example : isOk (run (modelClone 4 28) exModel).1 = true := by decide +kernel
+
+/-! ### D342: a sharding spec on a value the value map does not bind yet
+
+`clone_node` resolves a spec whose value is neither an input nor an output of its node through the
+cloner's value map AT THE TIME THE NODE IS CLONED (`cloneNode`: `vm` is read right after the node's
+outputs were cloned).  A value that a LATER node of the cloned region defines is not bound yet, so the
+spec is `specOuter` although the graph is closed and def-before-use sorted.  The model is what the
+code is (finding D342, proposed_fixes/D342.md, not applied). -/
+
+theorem ioMap_lookup_none {ins0 ins : List (Option Nat)} {outs0 outs : List Nat} {v : Nat}
+    (h1 : ins0.contains (some v) = false) (h2 : outs0.contains v = false) :
+    (ioMap ins0 ins outs0 outs).lookup v = none := by
+  cases hl : (ioMap ins0 ins outs0 outs).lookup v with
+  | none => rfl
+  | some x =>
+    exfalso
+    have hmem := mem_of_lookup hl
+    unfold ioMap at hmem
+    rcases List.mem_append.mp hmem with h | h
+    · have := (List.of_mem_zip h).1
+      have : outs0.contains v = true := by simpa using this
+      rw [h2] at this; cases this
+    · obtain ⟨q, hq, hqe⟩ := List.mem_filterMap.mp h
+      rcases q with ⟨qa, qb⟩
+      cases qa with
+      | none => simp at hqe
+      | some a =>
+        cases qb with
+        | none => simp at hqe
+        | some b =>
+          simp at hqe
+          obtain ⟨rfl, rfl⟩ := hqe
+          have := (List.of_mem_zip hq).1
+          have : ins0.contains (some a) = true := by simpa using this
+          rw [h1] at this; cases this
+
+/-- **C13_spec_unbound_D342**.  For every node `ns`, every value map `vm` and every sharding spec
+    `sp` that is `specOuter ns vm` (decidable: its value is not an input of the node, not an output,
+    and not bound in `vm` — in particular the output of a node that is cloned LATER): the remap of
+    `clone_node` leaves the spec as it is, i.e. with `allow_outer_scope_values=True` the cloned
+    node's annotation stays on the ORIGINAL's value, and with `False` the check of `clone_node`
+    raises when the spec belongs to the node — also on a closed, sorted graph.  No hypothesis on the
+    heap or the cloner state. -/
+theorem C13_spec_unbound_D342 (ns : NodeS) (vm : List (Nat × Nat)) (ins : List (Option Nat)) (outs : List Nat)
+    (sp : DevSpec) (s : St) (hsp : specOuter ns vm sp = true) :
+    remapSpec (ioMap ns.inputs ins ns.outputs outs ++ vm) sp = sp ∧
+    (checkSpecs true ns vm s).1 = .ok () ∧
+    ((∃ c ∈ ns.dev, sp ∈ c.specs) →
+      (checkSpecs false ns vm s).1 = .error (.raised "sharding spec targets an outer-scope value")) := by
+  unfold specOuter at hsp
+  cases hv : sp.value with
+  | none => rw [hv] at hsp; cases hsp
+  | some v =>
+    rw [hv] at hsp
+    simp only [Bool.and_eq_true, Bool.not_eq_true', Option.isNone_iff_eq_none] at hsp
+    obtain ⟨⟨h1, h2⟩, h3⟩ := hsp
+    refine ⟨?_, ?_, ?_⟩
+    · unfold remapSpec
+      rw [hv]
+      simp only
+      rw [lookup_append_none (ioMap_lookup_none h1 h2), h3]
+    · simp [checkSpecs, Pure.pure, M.pure]
+    · rintro ⟨c, hc, hspc⟩
+      have : ns.dev.any (fun c => c.specs.any (specOuter ns vm)) = true := by
+        rw [List.any_eq_true]
+        refine ⟨c, hc, ?_⟩
+        rw [List.any_eq_true]
+        refine ⟨sp, hspc, ?_⟩
+        simp only [specOuter, hv, h1, h2, h3]
+        rfl
+      simp [checkSpecs, this, raise, fail]
+
+/-- D342 on a heap: g(x): a = A(x) -> va; b = B(va) -> vb with a spec on vc; c = C(va) -> vc.
+    The graph is closed and def-before-use sorted; `b` is cloned before `c`. -/
+def exLater : World := [
+  .graph { name := some "g", inputs := [3], outputs := [15, 21], nodes := [6, 12, 18], props := 1, mstore := 2 },
+  .dict {}, .dict {},
+  .val { name := some "x", graph := some 0, isIn := true, uses := [(6, 0)], props := 4, mstore := 5 },
+  .dict {}, .dict {},
+  .node { name := some "a", opType := "A", inputs := [some 3], outputs := [9], graph := some 0,
+          props := 7, mstore := 8 },
+  .dict {}, .dict {},
+  .val { name := some "va", producer := some 6, index := some 0, uses := [(12, 0), (18, 0)], props := 10, mstore := 11 },
+  .dict {}, .dict {},
+  .node { name := some "b", opType := "B", inputs := [some 9], outputs := [15], graph := some 0,
+          dev := [{ cfg := 0, specs := [{ value := some 21, payload := 0 }] }], props := 13, mstore := 14 },
+  .dict {}, .dict {},
+  .val { name := some "vb", producer := some 12, index := some 0, graph := some 0, isOut := true,
+         props := 16, mstore := 17 },
+  .dict {}, .dict {},
+  .node { name := some "c", opType := "C", inputs := [some 9], outputs := [21], graph := some 0,
+          props := 19, mstore := 20 },
+  .dict {}, .dict {},
+  .val { name := some "vc", producer := some 18, index := some 0, graph := some 0, isOut := true,
+         props := 22, mstore := 23 },
+  .dict {}, .dict {} ]
+
+/-- what the code does today: `allow=True` returns a clone whose node `b` keeps the spec on the
+    ORIGINAL's `vc` (cell 21); `allow=False` raises although the graph is closed and sorted -/
+example : isOk (run (graphClone 4 true 0) exLater).1 = true ∧
+    devOfNodesNamed (run (graphClone 4 true 0) exLater).2 "b" = [[some 21], [some 21]] := by
+  decide +kernel
+example : verdictKind (cloneVerdict 4 false exLater 0) =
+    "raised: sharding spec targets an outer-scope value" := by decide +kernel
 
 end IrVerif.Clone
